@@ -87,7 +87,7 @@ let () =
       go c07_framer_init 0 (pairs vals)
     | ["lichcopy"; l; s] ->
       (match c07_lich_copy (bytes_of_hex l) (bytes_of_hex s) with
-       | Ok None -> print_endline "none"
+       | Ok None -> Printf.printf "lsf=%s\n" (hex_of_bytes (bytes_of_hex s))
        | Ok (Some lsf) -> Printf.printf "lsf=%s\n" (hex_of_bytes lsf)
        | r -> print_endline (fault_text r))
     | ["unpack"; h] ->
